@@ -74,6 +74,12 @@ def block(ctx, e, base, rv, v_e):
     if ctx == "self_assign":
         # the target is one of the expression's own variables (a by-reference result parameter may alias an operand)
         return [(base + 1, [("let", ("var", "A"), e, False), ("let", R, ("var", "A"), False)])]
+    if ctx == "self_assign_d":
+        # the same with D as the target (D is negative with a fraction in two valuations), and through an array element
+        return [(base + 1, [("let", ("var", "D"), e, False), ("let", R, ("var", "D"), False)])]
+    if ctx == "self_assign_x":
+        x1 = ("arr", "Y", [X.num(1)])
+        return [(base + 1, [("let", x1, ("bin", "-", ("var", "D"), ("num", 0.25, [".25"])), False), ("let", x1, X.subst(e, ("var", "D"), x1), False), ("let", R, x1, False)])]
     if ctx == "self_assign_s":
         return [(base + 1, [("let", ("var", "A$"), e, False), ("let", ("var", rv + "$"), ("var", "A$"), False)])]
     if ctx == "assign_s":
@@ -630,6 +636,36 @@ def cases(tier, seed):
 
         return climb(0, 0)[0]
 
+    # a function whose result variable is its own bare operand (the runtime procedure then reads and writes one storage):
+    # D=INT(D), Y(1)=INT(Y(1)) and friends, with operands of either sign, whole and fractional
+    for e_ in (("fn", "INT", [("var", "D")]), ("fn", "INT", [("un", "-", ("var", "D"))]), ("fn", "INSTR", [("var", "D"), ("str", "ABCABC"), ("str", "BC")]),
+               ("fn", "ABS", [("var", "D")]), ("fn", "SGN", [("var", "D")]), ("fn", "FIX", [("var", "D")]), ("fn", "LEN", [("fn", "STR$", [("var", "D")])])):
+        yield {"ctx": "self_assign_d", "e": e_}
+        yield {"ctx": "self_assign_x", "e": e_}
+    # VAL of texts that are not numbers (0 in Color BASIC), stored over a variable that holds something else
+    for arg in (("var", "A$"), ("var", "B$"), ("str", "HELLO"), ("str", ""), ("str", "1X"), ("str", "X1"), ("str", " 5"), ("str", "-"), ("str", "."),
+                ("bin", "+", ("var", "A$"), ("str", "Z"))):
+        v_ = ("fn", "VAL", [arg])
+        for ctx in ("self_assign", "assign", "if_noelse", "sub_read"):
+            yield {"ctx": ctx, "e": v_}
+        yield {"ctx": "assign", "e": ("bin", "+", ("fn", "VAL", [("str", "41")]), v_)}
+        yield {"ctx": "assign", "e": ("bin", "+", ("bin", "*", v_, X.num(2)), ("fn", "VAL", [("str", "7")]))}
+    # numeric arguments of the string functions in every operand shape the parser builds a different node for: a sign or
+    # NOT in front of a variable or a parenthesis, a sum that begins with a sign (valuations give D = 2, 5, 1, -2, -1.5 ...:
+    # the cases that are errors in Color BASIC drop out)
+    shapes_n = [("un", "-", ("var", "D")), ("un", "NOT", ("var", "D")), ("un", "-", ("par", ("bin", "-", ("var", "D"), X.num(1)))),
+                ("bin", "+", ("un", "-", ("var", "D")), X.num(1)), ("un", "+", ("var", "D")), ("par", ("un", "-", ("var", "D"))),
+                ("un", "-", ("un", "-", ("var", "D"))), ("bin", "-", X.num(3), ("var", "D"))]
+    subj = ("bin", "+", ("str", "ABCABC"), ("var", "A$"))
+    for sh in shapes_n:
+        yield {"ctx": "assign", "e": ("fn", "INSTR", [sh, subj, ("str", "BC")])}
+        yield {"ctx": "if_noelse", "e": ("bin", ">", ("fn", "INSTR", [sh, ("str", "XABCABC"), ("var", "B$")]), X.num(2))}
+        yield {"ctx": "assign_s", "e": ("fn", "MID$", [subj, sh, X.num(2)])}
+        yield {"ctx": "assign_s", "e": ("fn", "MID$", [subj, X.num(2), sh])}
+        yield {"ctx": "assign_s", "e": ("fn", "LEFT$", [subj, sh])}
+        yield {"ctx": "assign_s", "e": ("fn", "RIGHT$", [subj, sh])}
+        yield {"ctx": "assign_s", "e": ("fn", "STRING$", [sh, ("str", "*")])}
+        yield {"ctx": "assign_s", "e": ("fn", "CHR$", [("bin", "+", X.num(70), sh)])}
     # many run-translated calls in one expression (each needs a temporary of its own: two-digit numbering), with values
     # that all differ
     for nterms in ((10, 11, 12, 23) if tier == "quick" else range(9, 40)):
